@@ -12,6 +12,7 @@ import (
 	"os"
 	"path/filepath"
 	"sort"
+	"strconv"
 	"strings"
 )
 
@@ -122,4 +123,124 @@ func unexpectedWriteSites(repo string) ([]string, []string, error) {
 		}
 	}
 	return all, bad, nil
+}
+
+// multiWriteFuncs: the append-only record files are written by ONE write call per record (that is what
+// makes "the record is there completely or not at all" true under the property's process-crash model).
+// For each persistence function it checks how the handle returned by os.OpenFile is used: one
+// `f.Write(..)` outside any loop, `f.Close()`, `f.Sync()` -- anything else (a second Write, a Write in
+// a loop, the handle passed to another function or wrapped in a buffered writer) means a record can
+// reach the disk in pieces.  Returns the names of the functions that do so.
+func multiWriteFuncs(repo string) ([]string, error) {
+	dir := filepath.Join(repo, "server")
+	ents, err := os.ReadDir(dir)
+	if err != nil {
+		return nil, err
+	}
+	targets := map[string]bool{"saveAllDeviceStats": true, "saveEquipment": true, "saveEquipmentReport": true}
+	var bad []string
+	fs := token.NewFileSet()
+	for _, e := range ents {
+		n := e.Name()
+		if !strings.HasSuffix(n, ".go") || strings.HasSuffix(n, "_test.go") || strings.HasPrefix(n, "verif_") {
+			continue
+		}
+		f, err := parser.ParseFile(fs, filepath.Join(dir, n), nil, 0)
+		if err != nil {
+			return nil, err
+		}
+		for _, d := range f.Decls {
+			fd, ok := d.(*ast.FuncDecl)
+			if !ok || fd.Body == nil || !targets[fd.Name.Name] {
+				continue
+			}
+			// the handle: first result of an assignment whose right side is os.OpenFile(...)
+			handle := ""
+			ast.Inspect(fd.Body, func(nd ast.Node) bool {
+				as, ok := nd.(*ast.AssignStmt)
+				if !ok || len(as.Rhs) != 1 || len(as.Lhs) == 0 {
+					return true
+				}
+				if ce, ok := as.Rhs[0].(*ast.CallExpr); ok {
+					if se, ok := ce.Fun.(*ast.SelectorExpr); ok {
+						if pk, ok := se.X.(*ast.Ident); ok && pk.Name == "os" && se.Sel.Name == "OpenFile" {
+							if id, ok := as.Lhs[0].(*ast.Ident); ok {
+								handle = id.Name
+							}
+						}
+					}
+				}
+				return true
+			})
+			if handle == "" {
+				bad = append(bad, fd.Name.Name+": no os.OpenFile handle found")
+				continue
+			}
+			writes, other := 0, ""
+			var walk func(nd ast.Node, inLoop bool)
+			walk = func(nd ast.Node, inLoop bool) {
+				ast.Inspect(nd, func(x ast.Node) bool {
+					switch v := x.(type) {
+					case *ast.ForStmt:
+						if v.Body != nil {
+							walk(v.Body, true)
+						}
+						return false
+					case *ast.RangeStmt:
+						if v.Body != nil {
+							walk(v.Body, true)
+						}
+						return false
+					case *ast.GoStmt:
+						other = "the write happens in a separate goroutine"
+					case *ast.CallExpr:
+						if se, ok := v.Fun.(*ast.SelectorExpr); ok {
+							if id, ok := se.X.(*ast.Ident); ok && id.Name == handle {
+								switch se.Sel.Name {
+								case "Write", "WriteString", "WriteAt":
+									writes++
+									if inLoop {
+										other = "write inside a loop"
+									}
+								case "Close", "Sync", "Name", "Stat":
+								default:
+									other = "handle method " + se.Sel.Name
+								}
+								return true
+							}
+						}
+						single := false // helpers that perform exactly one Write on their first argument
+						if se, ok := v.Fun.(*ast.SelectorExpr); ok {
+							if pk, ok := se.X.(*ast.Ident); ok && pk.Name == "io" && se.Sel.Name == "WriteString" {
+								single = true
+							}
+						}
+						for _, a := range v.Args {
+							if id, ok := a.(*ast.Ident); ok && id.Name == handle {
+								if single {
+									writes++
+									if inLoop {
+										other = "write inside a loop"
+									}
+								} else {
+									other = "the handle is passed to another function"
+								}
+							}
+						}
+					}
+					return true
+				})
+			}
+			walk(fd.Body, false)
+			if writes != 1 || other != "" {
+				why := other
+				if why == "" {
+					why = strconv.Itoa(writes) + " write calls"
+				}
+				bad = append(bad, fd.Name.Name+": "+why)
+			}
+		}
+	}
+	sort.Strings(bad)
+	return bad, nil
 }
